@@ -3,6 +3,7 @@ from ..rules_flow import Flow, P4_inverse, P5_cancel_list
 from ..rules_ni import NI1_sign_independence
 from ..rules_gate import K1_loader
 from ..rules_tables import Tables
+from ..rules_conv import B5_label_order
 
 
 def run(tree, rep, tier):
@@ -13,9 +14,12 @@ def run(tree, rep, tier):
     K1_loader(rep, flow, Tables(tree), tier, mode="subset", api=("stabilizer_circuits.get_readout_circuit",))
     NI1_sign_independence(rep, flow)
     P5_cancel_list(rep, flow, ["stabilizer_circuits.get_readout_circuit", "stabilizer_circuits.get_preparation_circuit"])
+    B5_label_order(rep, flow, ["stabilizer_circuits.get_readout_circuit"])
+    rep.rules["B5"]["floor"] = 0      # today's readout path exports no string list at all; the rule watches for one
     rep.trusted += ["Q1", "Q2", "Q3"]
     rep.decided += ["readout = inverse, exactly once, of the sign-free preparation term (P4)",
                     "every gate the table loader appends on the stabilizer path is the gate a token names, on the written qubits, in token order (K1, subset mode: a loader that alters, invents or moves a gate does not deliver the table's circuit; leaving out gates that act trivially on |0..0> is tolerated)",
                     "the readout circuit cannot depend on the generators' signs (NI1, non-interference over an over-approximated closure)",
-                    "the cancellation pass lists only self-inverse gates, a necessary condition of 'the pass preserves the unitary' (P5)"]
+                    "the cancellation pass lists only self-inverse gates, a necessary condition of 'the pass preserves the unitary' (P5)",
+                    "no Pauli-string export on the readout path reaches a consumer of the other label order (B5)"]
     rep.not_decided += ["that the sign-free preparation term prepares the state up to signs, i.e. that the readout really diagonalises the group (value-level)"]
